@@ -74,6 +74,12 @@ def build_inputs(entry, rep, cond):
     t = Table(); t['x'] = [p[0] + 0.2 for p in E._positions()]; t['y'] = [p[1] - 0.1 for p in E._positions()]
     if cond == 'masked':
         t['group_id'] = [1, 1, 2, 3]
+    if rep == 'quantity' and entry == 'psf_photometry':
+        # initial guesses written in a convertible unit (data in Jy, guesses in mJy): converted in a copy
+        from astropy.table import QTable
+        t = QTable(t)
+        t['flux'] = np.array([450.0, 720.0, 585.0, 300.0])[:len(t)] * 1000.0 * u.mJy
+        t['local_bkg'] = np.array([10.0, -20.0, 5.0, 0.0])[:len(t)] * u.mJy
     store['table'] = t
     store['model'] = E._psf_model()
     yy, xx = np.mgrid[:9, :11]
